@@ -1,4 +1,303 @@
 import SSModel.Format
-/-! C18 — placeholder; theorems follow. -/
+import SSLemmas.Format
+/-!
+C18 — tree formatting is well-formed; reading it back recovers the Stack's structure.
+Property theorems only.  Model `SSModel/Format.lean` over the marker table generated from `_types.py`.
+-/
 open SS.Format
-theorem C18_placeholder : True := trivial
+
+def allMarkers : List Marker :=
+  [.startFrame, .continueFrame, .startLeaf, .startContext, .continueContext, .startChildContext, .startCode, .startChild, .continueChild]
+
+/-- Every marker, Unicode and ASCII, is exactly two characters wide and contains no newline. -/
+theorem C18_markers_two_wide :
+    ∀ m ∈ allMarkers, ∀ a : Bool, (Marker.render a m).length = 2 ∧ (Marker.render a m).toList.all (· != '\n') = true := by
+  decide
+
+/-- **decodable**: in the Unicode table, markers that can stand at the same position of a line are
+pairwise different (stack level: frame start / frame continuation / leaf; frame level: context start /
+context continuation / child-context start / code; context level: child start / child continuation),
+and no marker that can begin a line *below* a context equals the child indicator except child start. -/
+theorem C18_markers_decodable :
+    [SS.Gen.startFrameU, SS.Gen.continueFrameU, SS.Gen.startLeafU].Nodup
+    ∧ [SS.Gen.startContextU, SS.Gen.continueContextU, SS.Gen.startChildContextU, SS.Gen.startCodeU].Nodup
+    ∧ [SS.Gen.startChildU, SS.Gen.continueChildU, SS.Gen.startFrameU, SS.Gen.continueFrameU, SS.Gen.startLeafU].Nodup := by
+  decide
+
+/-- Frame._format recognises a child's first line by `startswith(child_context_indicator)`: the
+indicator *is* the child-start marker, in both tables. -/
+theorem C18_indicator_is_start_child :
+    childIndicator false = Marker.render false .startChild ∧ childIndicator true = Marker.render true .startChild := by
+  decide
+
+/-- **C18_ascii**: both outputs are renderings of the same marked lines; and the ASCII marker is a
+function of the Unicode marker (equal Unicode markers have equal ASCII counterparts), so the ASCII text
+is the Unicode text with each prefix marker replaced by its fixed counterpart. -/
+theorem C18_ascii (c h : Bool) (s : Stack) :
+    format ⟨true, c, h⟩ s = (fmtStack c h s).map (Line.render true)
+    ∧ format ⟨false, c, h⟩ s = (fmtStack c h s).map (Line.render false)
+    ∧ (∀ m ∈ allMarkers, ∀ m' ∈ allMarkers, Marker.render false m = Marker.render false m' → Marker.render true m = Marker.render true m') := by
+  refine ⟨rfl, rfl, ?_⟩
+  decide
+
+/-- **C18_str**: `str(x)` is the concatenation of `format()` with the default options. -/
+theorem C18_str (s : Stack) : str s = String.join (format ⟨false, true, false⟩ s) := rfl
+
+/-! #### every line is one newline-terminated line -/
+
+/-- The text of a line is a payload followed by exactly the final newline. -/
+def LineOK (l : Line) : Prop := ∃ p : String, l.text = p ++ "\n"
+
+theorem push_ok (m : Marker) (l : Line) (h : LineOK l) : LineOK (push m l) := h
+
+theorem markBlock_ok (a b : Marker) (ls : List Line) (h : ∀ l ∈ ls, LineOK l) : ∀ l ∈ markBlock a b ls, LineOK l := by
+  cases ls with
+  | nil => intro l hl; cases hl
+  | cons x xs =>
+    intro l hl
+    simp only [markBlock, List.mem_cons, List.mem_map] at hl
+    rcases hl with rfl | ⟨y, hy, rfl⟩
+    · exact h x (by simp)
+    · exact h y (by simp [hy])
+
+theorem markContext_ok (ls : List Line) (h : ∀ l ∈ ls, LineOK l) : ∀ l ∈ markContext ls, LineOK l := by
+  cases ls with
+  | nil => intro l hl; cases hl
+  | cons x xs =>
+    intro l hl
+    simp only [markContext, List.mem_cons, List.mem_map] at hl
+    rcases hl with rfl | ⟨y, hy, rfl⟩
+    · exact h x (by simp)
+    · have := h y (by simp [hy]); split <;> exact this
+
+theorem errorLines_ok (e : Option (List String)) : ∀ l ∈ errorLines e, LineOK l := by
+  cases e with
+  | none => intro l hl; cases hl
+  | some ls =>
+    intro l hl
+    simp only [errorLines, List.mem_cons, List.mem_map] at hl
+    rcases hl with rfl | ⟨y, _, rfl⟩
+    · exact ⟨"  Error while extracting stack:", rfl⟩
+    · exact ⟨"  " ++ y, rfl⟩
+
+theorem contextText_ok (a : String) (b : Option String) (c : Bool) (d e : Option String) (f : Option Nat) (g h : Bool) :
+    ∃ p, contextText a b c d e f g h = p ++ "\n" := ⟨_, rfl⟩
+
+mutual
+  theorem stack_ok (sc sh : Bool) : ∀ s : Stack, ∀ l ∈ fmtStack sc sh s, LineOK l
+    | .mk root frames leaf err => by
+      intro l hl
+      simp only [fmtStack, List.mem_cons, List.mem_append] at hl
+      rcases hl with rfl | (hl | hl) | hl
+      · cases root <;> exact ⟨_, rfl⟩
+      · exact frames_ok sc sh frames l hl
+      · cases leaf with
+        | none => cases hl
+        | some r => simp at hl; subst hl; exact ⟨r, rfl⟩
+      · exact errorLines_ok err l hl
+  theorem frames_ok (sc sh : Bool) : ∀ fs : Frames, ∀ l ∈ fmtFrames sc sh fs, LineOK l
+    | .nil => by intro l hl; cases hl
+    | .cons f rest => by
+      intro l hl
+      simp only [fmtFrames, List.mem_append] at hl
+      rcases hl with hl | hl
+      · exact frame_ok sc sh f l hl
+      · exact frames_ok sc sh rest l hl
+  theorem frame_ok (sc sh : Bool) : ∀ f : Frame, ∀ l ∈ fmtFrameIn sc sh f, LineOK l
+    | .mk head file func lineno code hide ctxs => by
+      intro l hl
+      unfold fmtFrameIn at hl
+      split at hl
+      · cases hl
+      · refine markBlock_ok _ _ _ ?_ l hl
+        intro x hx
+        simp only [List.mem_cons, List.mem_append] at hx
+        rcases hx with rfl | hx | hx
+        · exact ⟨head, rfl⟩
+        · split at hx
+          · exact contexts_ok sc sh ctxs x hx
+          · cases hx
+        · split at hx
+          · cases hx
+          · simp at hx; subst hx; exact ⟨code, rfl⟩
+  theorem contexts_ok (sc sh : Bool) : ∀ cs : Contexts, ∀ l ∈ fmtContexts sc sh cs, LineOK l
+    | .nil => by intro l hl; cases hl
+    | .cons c rest => by
+      intro l hl
+      simp only [fmtContexts, List.mem_append] at hl
+      rcases hl with hl | hl
+      · exact markContext_ok _ (context_ok sc sh true true c) l hl
+      · exact contexts_ok sc sh rest l hl
+  theorem context_ok (sc sh hp sl : Bool) : ∀ c : Context, ∀ l ∈ fmtContext sc sh hp sl c, LineOK l
+    | .mk src desc isAsync objType varname startLine hide ex rp ro inner children => by
+      intro l hl
+      unfold fmtContext at hl
+      split at hl
+      · cases hl
+      · simp only [List.mem_cons, List.mem_append] at hl
+        rcases hl with rfl | hl | hl
+        · exact contextText_ok _ _ _ _ _ _ _ _
+        · cases inner with
+          | none => cases hl
+          | some s => exact stack_ok sc sh s l (List.mem_of_mem_drop hl)
+        · exact children_ok sc sh false children l hl
+  theorem children_ok (sc sh db : Bool) : ∀ ch : Children, ∀ l ∈ fmtChildren sc sh db ch, LineOK l
+    | .nil => by intro l hl; cases hl
+    | .ctx c rest => by
+      intro l hl
+      simp only [fmtChildren, List.mem_append] at hl
+      rcases hl with hl | hl
+      · exact markBlock_ok _ _ _ (context_ok sc sh false false c) l hl
+      · exact children_ok sc sh _ rest l hl
+    | .stack (.mk root frames leaf err) rest => by
+      intro l hl
+      simp only [fmtChildren, List.mem_append] at hl
+      rcases hl with (hl | hl) | hl
+      · split at hl
+        · simp at hl; subst hl; exact ⟨"", rfl⟩
+        · cases hl
+      · refine markBlock_ok _ _ _ ?_ l hl
+        intro x hx
+        simp only [List.cons_append, List.mem_cons, List.mem_append] at hx
+        rcases hx with rfl | hx | hx
+        · cases root <;> exact ⟨_, rfl⟩
+        · exact stack_ok sc sh (.mk root frames leaf err) x (List.mem_of_mem_drop hx)
+        · split at hx
+          · simp at hx; subst hx; exact ⟨"", rfl⟩
+          · cases hx
+      · exact children_ok sc sh _ rest l hl
+end
+
+/-- **C18_lines**: for any tree and options, every formatted line is `markers ++ payload ++ "\n"`: one
+newline-terminated line (markers contain no newline by `C18_markers_two_wide`; payloads are the
+caller's single-line strings). -/
+theorem C18_lines (o : Opts) (s : Stack) :
+    ∀ l ∈ fmtStack o.showContexts o.showHidden s, ∃ p : String, l.text = p ++ "\n" :=
+  stack_ok _ _ s
+
+/-! #### hidden iff show_hidden_frames; show_contexts=False prints exactly the frame series -/
+
+theorem C18_hidden_frames (sc : Bool) (head file func : String) (lineno : Nat) (code : String) (ctxs : Contexts) :
+    fmtFrameIn sc false (.mk head file func lineno code true ctxs) = []
+    ∧ fmtFrameIn sc true (.mk head file func lineno code true ctxs) = fmtFrameIn sc true (.mk head file func lineno code false ctxs) := by
+  simp [fmtFrameIn]
+
+theorem C18_hidden_contexts (sc hp sl : Bool) (a : String) (b : Option String) (c : Bool) (d e : Option String) (f : Option Nat)
+    (ex : Bool) (r1 r2 : String) (inner : Option Stack) (ch : Children) :
+    fmtContext sc false hp sl (.mk a b c d e f true ex r1 r2 inner ch) = [] := by
+  simp [fmtContext]
+
+/-- The lines of one frame when contexts are not shown: its header, and its code line unless its last
+context is exiting or there is no source text. -/
+def plainFrameLines (sh : Bool) : Frame → List Line
+  | .mk head _ _ _ code hide ctxs =>
+    if hide && !sh then [] else
+      ⟨[.startFrame], head ++ "\n"⟩ :: (if ctxs.lastExiting || code.isEmpty then [] else [⟨[.continueFrame, .startCode], code ++ "\n"⟩])
+
+/-- **C18_no_contexts**: with `show_contexts=False` the output is exactly the header, the frame series,
+the leaf line and the error lines — whatever contexts, inner stacks and children the tree has. -/
+theorem fmtFrames_plain (sh : Bool) : ∀ fs : Frames, fmtFrames false sh fs = (fs.toList.map (plainFrameLines sh)).flatten
+  | .nil => rfl
+  | .cons f rest => by
+    simp only [fmtFrames, Frames.toList, List.map_cons, List.flatten_cons, fmtFrames_plain sh rest]
+    congr 1
+    cases f with
+    | mk head file func lineno code hide ctxs =>
+      simp only [fmtFrameIn, plainFrameLines]
+      split
+      · rfl
+      · simp only [Bool.false_eq_true, if_false, List.nil_append]
+        split <;> simp [markBlock, push]
+
+theorem C18_no_contexts (sh : Bool) (root : Option String) (frames : Frames) (leaf : Option String) (err : Option (List String)) :
+    fmtStack false sh (.mk root frames leaf err) =
+      ⟨[], headerText root⟩ :: ((frames.toList.map (plainFrameLines sh)).flatten ++
+        (match leaf with | some r => [⟨[.startLeaf], r ++ "\n"⟩] | none => []) ++ errorLines err) := by
+  simp only [fmtStack, fmtFrames_plain]
+  cases leaf <;> rfl
+
+/-! #### the frame series can be read back -/
+
+/-- The block of lines of each visible frame. -/
+def frameBlocks (sc sh : Bool) (fs : Frames) : List (List Line) :=
+  (fs.toList.map (fmtFrameIn sc sh)).filter (fun b => !b.isEmpty)
+
+theorem fmtFrames_flatten (sc sh : Bool) : ∀ fs : Frames, fmtFrames sc sh fs = (frameBlocks sc sh fs).flatten
+  | .nil => rfl
+  | .cons f rest => by
+    have ih := fmtFrames_flatten sc sh rest
+    simp only [fmtFrames, frameBlocks, Frames.toList, List.map_cons, List.filter_cons]
+    cases hb : fmtFrameIn sc sh f with
+    | nil => simp [ih, frameBlocks]
+    | cons x xs => simp [ih, frameBlocks]
+
+theorem frameBlock_good (sc sh : Bool) (f : Frame) (hb : fmtFrameIn sc sh f ≠ []) :
+    GoodBlock (firstIs .startFrame) (firstIs .continueFrame) (fmtFrameIn sc sh f) := by
+  cases f with
+  | mk head file func lineno code hide ctxs =>
+    unfold fmtFrameIn at hb ⊢
+    split
+    · rename_i h; simp [h] at hb
+    · exact markBlock_good .startFrame .continueFrame (by decide) _ _
+
+/-- **C18_frame_blocks**: from the body of the text (everything after the header) the frame series is
+recovered: cutting at start-of-frame markers, each block running over the frame-continuation markers
+that follow, yields exactly one block per visible frame, in order, each beginning with that frame's
+header line; the leaf line and the error lines are not absorbed. -/
+theorem C18_frame_blocks (sc sh : Bool) (root : Option String) (frames : Frames) (leaf : Option String) (err : Option (List String)) :
+    splitBlocks (firstIs .startFrame) (firstIs .continueFrame) ((fmtStack sc sh (.mk root frames leaf err)).drop 1)
+      = frameBlocks sc sh frames := by
+  simp only [fmtStack, List.drop_succ_cons, List.drop_zero, fmtFrames_flatten, List.append_assoc]
+  apply splitBlocks_flatten
+  · intro x hx
+    simp only [firstIs] at hx ⊢
+    cases hm : x.markers with
+    | nil => rfl
+    | cons m ms =>
+      simp only [hm, beq_iff_eq] at hx
+      subst hx
+      rfl
+  · intro b hb
+    simp only [frameBlocks, List.mem_filter, List.mem_map] at hb
+    obtain ⟨⟨f, _, rfl⟩, hne⟩ := hb
+    apply frameBlock_good
+    intro h; simp [h] at hne
+  · intro x hx
+    simp only [List.mem_append] at hx
+    rcases hx with hx | hx
+    · cases leaf with
+      | none => cases hx
+      | some r => simp at hx; subst hx; rfl
+    · cases err with
+      | none => cases hx
+      | some ls =>
+        simp only [errorLines, List.mem_cons, List.mem_map] at hx
+        rcases hx with rfl | ⟨y, _, rfl⟩ <;> rfl
+  · intro x hx
+    cases leaf with
+    | some r => simp at hx; subst hx; rfl
+    | none =>
+      cases err with
+      | none => simp [errorLines] at hx
+      | some ls => simp [errorLines] at hx; subst hx; rfl
+
+/-! non-vacuity -/
+def exStack : Stack :=
+  .mk (some "root") (.cons (.mk "f in m at x.py:3" "x.py" "f" 3 "with cm() as a:" false
+      (.cons (.mk "with cm() as a:" none false (some "CM") (some "a") (some 3) false false "ctx" "obj" none
+        (.stack (.mk (some "task1") (.cons (.mk "g in m at x.py:9" "x.py" "g" 9 "await t" false .nil) .nil) none none) .nil)) .nil)) .nil)
+    (some "<leaf>") (some ["ValueError: boom"])
+
+example : format ⟨false, true, false⟩ exStack =
+  ["stackscope.Stack of root (most recent call last):\n",
+   "╠ f in m at x.py:3\n",
+   "║ ├ with cm() as a:  # a: CM (line 3)\n",
+   "║ │   \n",
+   "║ ├── task1\n",
+   "║ │   ╠ g in m at x.py:9\n",
+   "║ │   ║ └ await t\n",
+   "║ │   \n",
+   "║ └ with cm() as a:\n",
+   "╚ <leaf>\n",
+   "  Error while extracting stack:\n",
+   "  ValueError: boom\n"] := by decide
